@@ -403,6 +403,13 @@ class Parser:
     ) -> Expression:
         tok = stream.next_token()
         precedence = self.PRECEDENCES.get(tok.type_, self.PRECEDENCE_LOWEST)
+        if (
+            self.BINARY_OPERATORS.get(tok.type_) in self.COMPARISON_OPERATORS
+            and stream.current.type_ == TokenType.LPAREN
+        ):
+            raise JSONPathSyntaxError(
+                "parenthesized expressions are not comparable", token=stream.current
+            )
         right = self.parse_filter_expression(stream, precedence)
         operator = self.BINARY_OPERATORS[tok.type_]
 
@@ -429,6 +436,13 @@ class Parser:
             expr = self.parse_infix_expression(stream, expr)
 
         stream.expect(TokenType.RPAREN)
+        self._raise_for_uncompared_value(expr, stream.current)
+
+        if self.BINARY_OPERATORS.get(stream.peek.type_) in self.COMPARISON_OPERATORS:
+            raise JSONPathSyntaxError(
+                "parenthesized expressions are not comparable", token=stream.peek
+            )
+
         return expr
 
     def parse_root_query(self, stream: TokenStream) -> Expression:
